@@ -176,3 +176,35 @@ Example astral_texts_compared_modulo_field_order :
   IntrospectCheck.default_agrees (Some (nm "{a: " ++ [34; 240; 144; 128; 128; 34; 125])%list)
                                  (DText (nm "{a: " ++ [34] ++ IntrospectCheck.pu 0 ++ IntrospectCheck.pu 48 ++ IntrospectCheck.pu 32 ++ IntrospectCheck.pu 32 ++ [34; 125])%list) = false.
 Proof. vm_compute. repeat split. Qed.
+
+(** the two additional hypotheses of [C10_rebuild_same_lookups] hold of the example definition:
+    unique type names, and C13's transcription of schema.New's acceptance checks on its registry *)
+From ApiFu Require Intro.ViewBridge.
+Example lookups_hypotheses :
+  nodup_b (map fst (types S_ex)) = true /\
+  ViewBridge.FM.schema_ok (ViewBridge.to_feat (ViewBridge.registered S_ex)) = true.
+Proof. vm_compute. split; reflexivity. Qed.
+
+(** Float defaults that are not integral: 1.5 = 6755399441055744 * 2^-52 printed "1.5", and
+    1e+21 = 7629394531250000 * 2^17 printed "1e+21" (exponent form): both are inside [printable]
+    (second disjunct) and round-trip *)
+Definition v_f1 : gval := GFloat 6755399441055744 (-52) (nm "1.5").
+Definition v_f2 : gval := GFloat 7629394531250000 17 (nm "1e+21").
+Example float_hypotheses :
+  default_conforms S_ex (GList [v_f1; v_f2]) (StList (StNamed (nm "Float"))) = true /\
+  printable (GList [v_f1; v_f2]).
+Proof.
+  split; [vm_compute; reflexivity|]. simpl. split; [|split; [|exact I]].
+  - right. exists false, (nm "1"), (nm "5"), None. split; [|split; [reflexivity | vm_compute; reflexivity]].
+    unfold go_float_ok, all_digits. repeat split; repeat constructor.
+  - right. exists false, (nm "1"), [], (Some (Some false, nm "21")). split; [|split; [reflexivity | vm_compute; reflexivity]].
+    unfold go_float_ok, all_digits. repeat split; repeat constructor. discriminate.
+Qed.
+Example float_instance :
+  exists txt, marshal S_ex (GList [v_f1; v_f2]) (StList (StNamed (nm "Float"))) = MOk txt /\
+              literal_denotes S_ex (StList (StNamed (nm "Float"))) txt (GList [v_f1; v_f2]) = true.
+Proof.
+  apply default_roundtrip_values;
+    [apply enums_ok_b_spec; vm_compute; reflexivity | apply inputs_ok_b_spec; vm_compute; reflexivity | | ];
+    apply float_hypotheses.
+Qed.
